@@ -29,7 +29,7 @@ fn c02_keyboard_decode_key() {
     kani::cover!(matches!(keyboard_decode_key(code), Some(KeyName::Char(_))));
 }
 
-//# kind=complete tier=quick props=C04,C02 fns=sgr_color | sgr_color over any argument list (0..=6 numeric fields, every value, both separator forms): `5;n` is the xterm-256 colour n (n<256) else None; `2;r;g;b` (and `2:cs:r:g:b` in colon form) are exactly (r,g,b), out-of-range components only ever clamped, never wrapped; anything else None; no panic
+//# kind=complete tier=quick props=C04,C02,C06 fns=sgr_color | sgr_color over any argument list (0..=6 numeric fields, every value, both separator forms): `5;n` is the xterm-256 colour n (n<256) else None; `2;r;g;b` (and `2:cs:r:g:b` in colon form) are exactly (r,g,b), out-of-range components only ever clamped, never wrapped; anything else None; no panic; in the semicolon form exactly 2 (`5;n`) or 4 (`2;r;g;b`) parameters are consumed, so the parameters that follow stay independent SGR codes
 #[kani::proof]
 #[kani::unwind(8)]
 #[kani::stub(number_decode, number_decode_stub)]
@@ -39,7 +39,10 @@ fn c04_sgr_color() {
     kani::assume(n <= 6);
     let colon: bool = kani::any();
     let fields: [&[u8]; 6] = [b"b", b"c", b"d", b"e", b"f", b"g"];
-    let got = sgr_color(fields[..n].iter().copied(), colon);
+    let mut it = fields[..n].iter().copied();
+    let got = sgr_color(&mut it, colon);
+    let mut left = 0usize;
+    while it.next().is_some() { left += 1; }
     let cl = |x: usize| -> u8 { if x > 255 { 255 } else { x as u8 } };
     if n >= 2 && v[1] == 5 {
         if v[2] < 256 {
@@ -58,6 +61,10 @@ fn c04_sgr_color() {
         }
     } else {
         assert!(got.is_none());
+    }
+    if !colon && got.is_some() {
+        // semicolon form: what follows the colour belongs to the next SGR parameter
+        assert!(left == n - (if v[1] == 5 { 2 } else { 4 }));
     }
     kani::cover!(got.is_some() && n == 5 && colon);
     kani::cover!(got.is_some() && n == 6 && !colon);
